@@ -154,7 +154,7 @@ func hex(n, width int, upper bool) string {
 
 func c07Fragments(n int) []string {
 	all := []string{
-		"a", " ", "\\n", "\\\\", "\\'", "\\\"", "'", "\"", "\\x41", "\\x22", "\\x27", "\\x5c", "\\x0a", "\\xe9", "\\u0041",
+		"a", " ", "\\n", "\\\\", "\\'", "\\\"", "'", "\"", "\\x41", "\\x31", "\\u0038", "\\0", "\\x22", "\\x27", "\\x5c", "\\x0a", "\\xe9", "\\u0041",
 		"\\u0022", "\\u005C", "\\u000A", "\\u00e9", "\\u20AC", "\\uD83D", "\\uDE00", "\\u{41}", "\\u{1F600}", "\\u{22}", "\\u{0005c}",
 		"\\t", "\\r", "\\0", "\\b", "\\v", "\\f", "\\\n", "\\\r\n", "é", "€", "😀", "$", "{", "}", "`", "//", "/*", ";", "\\x", "\\u",
 		"\\u{", "\\u00", "\\xZ", "\\a", "\\1", "\\8", "0", "\t", "\\u2028", "\\u{2029}", "\\x7f", "\\x80", "\\xff", "\\u{10FFFF}", "\\u{D800}",
